@@ -127,6 +127,10 @@ def r2_registered(prog, rep: Report, tp: Cls, fp: Cls):
               scenario="some of the given files are not opened (or opened in another mode): pool[path] raises KeyError")
 
 
+def _is_manager_list(call: ast.Call) -> bool:
+    return isinstance(call.func, ast.Attribute) and call.func.attr == "list" and "manager" in src(call.func.value).lower()
+
+
 def _registry_field(prog, tp: Cls) -> str:
     ln = prog.method(tp, "__len__")
     for r in returns_of(ln.node):
@@ -182,10 +186,10 @@ def r3_covers(prog, rep: Report, tp: Cls, fp: Cls):
         v = resets[0].value
         if isinstance(v, ast.IfExp):
             mp = "multi_proc" in src(v.test)
-            mgr = isinstance(v.body, ast.Call) and src(v.body.func).endswith("_manager.list")
+            mgr = isinstance(v.body, ast.Call) and _is_manager_list(v.body)
             plain = isinstance(v.orelse, ast.List) and not v.orelse.elts
             neg = isinstance(v.test, ast.UnaryOp)
-            ok = mp and ((mgr and plain and not neg) or (neg and isinstance(v.body, ast.List) and src(v.orelse.func).endswith("_manager.list")))
+            ok = mp and ((mgr and plain and not neg) or (neg and isinstance(v.body, ast.List) and isinstance(v.orelse, ast.Call) and _is_manager_list(v.orelse)))
     rep.check("C20.R3", f, "flush-resets-registry", ok, "registry replaced by a manager list iff multi_proc, else []",
               "after flush the registry is not an empty list of the right kind (manager list iff multi_proc)",
               scenario="multi_proc pool: flush(), then a child process calls create(): with a plain list the parent never learns "
@@ -196,7 +200,7 @@ def r3_covers(prog, rep: Report, tp: Cls, fp: Cls):
     for n in walk_own(en.node):
         if isinstance(n, ast.If) and "multi_proc" in src(n.test) and not isinstance(n.test, ast.UnaryOp):
             ok = any(isinstance(s, ast.Assign) and dotted(s.targets[0]) == (en.self_name, reg) and isinstance(s.value, ast.Call)
-                     and src(s.value.func).endswith("_manager.list") for s in n.body)
+                     and _is_manager_list(s.value) for s in n.body)
     ok = ok and any(src(r.value) == en.self_name for r in returns_of(en.node))
     rep.check("C20.R3", en, "enter-shares-registry", ok, "__enter__ makes the registry a manager list iff multi_proc and returns the pool",
               "__enter__ does not make the registry a manager list for a multi_proc pool",
